@@ -506,6 +506,37 @@ func runC01(r *Run) {
 		r.check(posStore, "addRoute:pos-from-counter", r.fpos(f), "new routes get pos from the atomic routes counter", "route position is not taken from the global counter")
 	})
 
+	r.rule("R9", "handler slices shared by the per-method copies of one registration are never appended to in place (E11, aliasing)", func() {
+		reg := r.Fn("", "(*App).register")
+		// precondition (belief): register stores one handlers slice into several routes (inside its method loop)
+		shared := false
+		for _, fr := range fieldRefs(reg) {
+			if fr.Write && fr.Name == "Route.Handlers" {
+				if _, isParam := fr.Val.(*ssa.Parameter); isParam {
+					shared = true
+				}
+			}
+		}
+		r.need(shared, "register stores its handlers parameter into Route.Handlers")
+		n := 0
+		r.P.AllFuncs("", func(f *ssa.Function) {
+			for _, c := range callsMatching(f, false, nameIs("builtin:append")) {
+				if !loadOfField(c.Common.Args[0], "Route.Handlers") {
+					// append(x.Handlers[:n:n], ...) — a full slice expression caps the capacity: append must copy
+					if sl, ok := c.Common.Args[0].(*ssa.Slice); ok && loadOfField(sl.X, "Route.Handlers") {
+						n++
+						r.check(sl.Max != nil, f.Name()+":append-to-Route.Handlers", r.pos(c.Instr), "the appended-to slice is capped (full slice expression): append copies",
+							f.Name()+" appends to a re-slice of Route.Handlers without capping its capacity")
+					}
+					continue
+				}
+				n++
+				r.bad(f.Name()+":append-to-Route.Handlers", r.pos(c.Instr), f.Name()+" appends to Route.Handlers in place, but the per-method copies of one registration (app.All / Use) share that slice's backing array: with app.All(\"/x\", h1..h5); app.Get(\"/x\", g); app.Post(\"/x\", p) the GET route runs p instead of g")
+			}
+		})
+		r.atLeast("appends to Route.Handlers", n, 1)
+	})
+
 	r.rule("R8", "cursor/bucket coherence: every function that assigns treePathHash or methodInt re-bases indexRoute on the same path, or all its callers do (E4c, belief rule)", func() {
 		selectors := []string{"DefaultCtx.treePathHash", "DefaultCtx.methodInt"}
 		n := 0
